@@ -207,7 +207,7 @@ OnRClassify(c, m, ev) ==
 
 OnClassify(c, m, ev) ==
     LET m1 == Checks(m, <<
-          <<m.phase = "inv" /\ m.lastout = "exc" /\ ev.n = m.ninv,
+          <<m.phase = "inv" /\ m.lastout \in {"exc", "excsame"} /\ ev.n = m.ninv,
                                            "C03:exception-classified-out-of-turn">>,
           <<~m.cancelOn,                   "C13:cancellation-classified">>,
           <<~m.abortReq,                   "C13:work-after-abort-request">> >>)
@@ -317,9 +317,9 @@ OnSleep(c, m, ev) ==
     LET total == m.sumSleep + ev.s
         full  == m.fullSleeps /\ (ev.t1 - ev.t >= ev.s)
         m1 == Checks(m, <<
-          <<ev.s >= 0,                               "C02:negative-sleep">>,
-          <<ev.s <= c.D - ev.t,                      "C02:sleep-longer-than-remaining-time">>,
-          <<~full \/ total <= c.D,                   "C02:total-sleep-exceeds-deadline">>,
+          <<ev.us >= 0,                              "C02:negative-sleep">>,
+          <<ev.us <= (c.D - ev.t) * 15625,           "C02:sleep-longer-than-remaining-time">>,
+          <<~full \/ ev.s < 0 \/ total <= c.D,       "C02:total-sleep-exceeds-deadline">>,
           <<m.phase = "failed" => ~(m.ft >= c.D),    "C02:backoff-after-failure-at-or-after-deadline">>,
           <<Granted(c, m) /\ m.retried,              "C03:sleep-without-permitted-retry">>,
           <<ev.s = m.applied,                        "C05:sleeper-delay">>,
